@@ -10,6 +10,7 @@ open ThermoVerif.Network Driver
 structure St where
   w : World := World.init
   names : Array Nat := #[]      -- real streams in creation order: s0, s1, …
+  mnames : Array Nat := #[]     -- placeholder objects in order of first appearance in a port list: m0, m1, …
   dead : Bool := false          -- after an error the case is over
 
 def parseWhich : String → Option Which
@@ -17,11 +18,15 @@ def parseWhich : String → Option Which
 
 def side (w : World) : Which → Side := w.side
 
-/-- `sN` = N-th real stream; `p<i|o>.<u>.<idx>` = object now at that port. -/
+/-- `sN` = N-th real stream; `mN` = N-th placeholder object (by first appearance);
+`p<i|o>.<u>.<idx>` = object now at that port. -/
 def St.ref (st : St) (t : String) : Option Nat :=
   if t.startsWith "s" then do
     let n ← (t.drop 1).toString.toNat?
     st.names[n]?
+  else if t.startsWith "m" then do
+    let n ← (t.drop 1).toString.toNat?
+    st.mnames[n]?
   else if t.startsWith "p" then
     match splitOn1 (t.drop 1).toString '.' with
     | [k, u, i] => do
@@ -48,34 +53,46 @@ def St.portRef (st : St) (t : String) : Option PortRef :=
 def St.portRefsOpt (st : St) (t : String) : Option (Option (List PortRef)) :=
   if t == "-" then some none else ((splitComma (if t == "[]" then "" else t)).mapM st.portRef).map some
 
+/-- constructor items: IDs, `None` or stream objects (a placeholder object is not a valid item) -/
 def St.item (st : St) (t : String) : Option Item :=
   if t == "new" then some .new else if t == "none" then some .none
-  else (st.ref t).map .strm
+  else ((st.ref t).filter st.w.real).map .strm
 
 def St.portsArg (st : St) (t : String) : Option PortsArg :=
   if t == "M" then some .missing else if t == "F" then some .fresh
   else if t.startsWith "L:" then ((splitComma (t.drop 2).toString).mapM st.item).map .given
   else none
 
-/-- register real streams created by the last op (ids in `[old nS, new nS)` that are real) -/
+/-- register the objects that became visible with the last op: real streams created
+(ids in `[old nS, new nS)` that are real) and placeholder objects not seen before, in the
+canonical scan order unit by unit, `ins` then `outs`, port by port -/
 def St.adopt (st : St) (w' : World) : St :=
   let fresh := (List.range (w'.nS - st.w.nS)).map (· + st.w.nS) |>.filter w'.real
-  { st with w := w', names := st.names ++ fresh.toArray }
+  let scan := ((List.range w'.nU).map fun u => w'.ins.lst u ++ w'.outs.lst u).flatten
+  let mn := scan.foldl (fun (acc : Array Nat) x =>
+    if w'.real x || acc.contains x then acc else acc.push x) st.mnames
+  { st with w := w', names := st.names ++ fresh.toArray, mnames := mn }
 
 def showLoc : Option Nat → String
   | none => "-" | some u => s!"U{u}"
 
+def St.nameOf (st : St) (x : Nat) : String :=
+  if st.w.real x then
+    match st.names.toList.idxOf? x with
+    | some n => s!"s{n}" | none => s!"?{x}"
+  else
+    match st.mnames.toList.idxOf? x with
+    | some n => s!"m{n}" | none => s!"?{x}"
+
 def St.show (st : St) : String :=
-  let nm (x : Nat) : String :=
-    if st.w.real x then
-      match st.names.toList.idxOf? x with
-      | some n => s!"s{n}" | none => s!"?{x}"
-    else "_"
+  let nm := st.nameOf
   let units := (List.range st.w.nU).map fun u =>
     s!"U{u}.i=[{joinWith "," ((st.w.ins.lst u).map nm)}] U{u}.o=[{joinWith "," ((st.w.outs.lst u).map nm)}]"
   let strs := st.names.toList.zipIdx.map fun (x, n) =>
     s!"s{n}={showLoc (st.w.outs.loc x)}>{showLoc (st.w.ins.loc x)}"
-  joinWith " " (units ++ strs)
+  let mstrs := st.mnames.toList.zipIdx.map fun (x, n) =>
+    s!"m{n}={showLoc (st.w.outs.loc x)}>{showLoc (st.w.ins.loc x)}"
+  joinWith " " (units ++ strs ++ mstrs)
 
 def St.finish (st : St) (r : Except Err World) (pre : String := "") : St × String :=
   match r with
@@ -88,12 +105,6 @@ def bad (st : St) : St × String := ({ st with dead := true }, "bad-op")
 
 def St.run (st : St) (op : Op) (pre : String := "") : St × String :=
   st.finish (st.w.step op) pre
-
-def St.nameOf (st : St) (x : Nat) : String :=
-  if st.w.real x then
-    match st.names.toList.idxOf? x with
-    | some n => s!"s{n}" | none => s!"?{x}"
-  else "_"
 
 def parseOp (st : St) (line : String) : Option Op :=
   match splitWs line with
@@ -145,15 +156,26 @@ def parseOp (st : St) (line : String) : Option Op :=
   | ["pipe_u_ss", u, ss] => do some (.sliceAll .o (← u.toNat?) (← st.optRefs ss))
   | _ => none
 
+/-- `stream - i - unit` / `unit ** i ** stream` with a placeholder object: the placeholder
+class has no pipe operators (TypeError) -/
+def pipeOfPlaceholder (st : St) (line : String) : Bool :=
+  match splitWs line with
+  | ["pipe_s_i_u", s, _, _] => (st.ref s).any (fun x => !st.w.real x)
+  | ["pipe_u_i_s", _, _, s] => (st.ref s).any (fun x => !st.w.real x)
+  | _ => false
+
 def step (st : St) (line : String) : St × String :=
   if st.dead then (st, "dead") else
   match (parseOp st line).filter (fun op => op.units.all (· < st.w.nU)) with
   | none => bad st
-  | some (.pop k u i) =>
-    let ret := match ((st.w.side k).lst u)[i]? with
-      | some s => s!"ret={st.nameOf s} " | none => ""
-    st.run (.pop k u i) ret
-  | some op => st.run op
+  | some op =>
+    if pipeOfPlaceholder st line then ({ st with dead := true }, "err=TypeError") else
+    match op with
+    | .pop k u i =>
+      let ret := match ((st.w.side k).lst u)[i]? with
+        | some s => s!"ret={st.nameOf s} " | none => ""
+      st.run (.pop k u i) ret
+    | op => st.run op
 
 def main : IO Unit := Driver.loop ({} : St) step
 
